@@ -115,6 +115,7 @@ fn lib<R>(f: impl FnOnce() -> R) -> Result<R, ()> {
   unsafe {
     alloc::TRACK = 0;
     alloc::PANIC_SKIP = false;
+    alloc::PANIC_SKIP_ONCE = false;
   }
   r.map_err(|_| ())
 }
